@@ -351,7 +351,9 @@ PROPS['C16']['v'] = [('u_mb2_dstlen', ['*Tag::dst_len', '*_BASE_SIZE', 'DynSized
                                       'TagHeader::set_size', 'TagHeader::payload_len', 'Header::total_size']),
                      ('u_hdr_builder', ['*HeaderTag::dst_len', 'INFOREQ_BASE_SIZE', 'DynSizedStructure::dst_len',
                                         'HeaderTagHeader::set_size', 'HeaderTagHeader::payload_len',
-                                        'Multiboot2BasicHeader::set_size', 'Multiboot2BasicHeader::payload_len'])]
+                                        'Multiboot2BasicHeader::set_size', 'Multiboot2BasicHeader::payload_len']),
+                     # clone clause: clone_dyn proved generically (all kinds, all sizes) from the assumed new_boxed contract
+                     ('u_mb2_builder', ['clone_dyn', 'MaybeDynSized::header', 'MaybeDynSized::payload', 'seqfold::lemma_concat_*'])]
 # C04: the typed getters select by `typ == T::ID` (TagTypeId::eq / TagType::eq, proved) and the framebuffer
 # colour information is decoded by buffer_type + Reader (proved for ALL palette lengths; the Kani harness bounds n <= 4)
 PROPS.setdefault('C04', dict(v=[], k_quick=[], k_thorough=[]))
@@ -375,7 +377,7 @@ PROPS['C11']['v'] = [('u_hdr_core', ['Multiboot2Header::iter', 'Multiboot2Header
                                      'Multiboot2BasicHeader::arch', 'TagIter::new', 'TagIter::next', 'walk_collect', 'HeaderTagHeader::payload_len',
                                      'Multiboot2BasicHeader::length', 'Multiboot2BasicHeader::header_magic', 'Multiboot2BasicHeader::checksum'])]
 PROPS['C13']['explanation'] = 'Bounded contract check: Kani explores the real find_header on every buffer length 0..=48 and every content (unwinding assertions on) against the oracle transcribed from the statement (first occurrence of the little-endian magic, alignment, truncation, returned sub-slice identical in address and length; total: any panic is a failure). The 8192-byte search-window clause is out of reach of both verifiers (unwinding 8189 window iterations in CBMC; Iterator::position cannot be specified in this Verus): for that clause a BOUNDED NATIVE stand-in runs the real function on 1464 enumerated cases around the limit (labelled bounded-native, never counted as proved).'
-PROPS['C16']['explanation'] = 'Bounded contract check: Kani verifies new_boxed on the compiled code for 0..=3 content slices of 0..=5 symbolic bytes each (header size field = 8 + total, header || content without gaps, size_of_val = total rounded up to 8, 8-aligned allocation, Kani`s allocator model checks that Box drop deallocates with the allocation`s layout) and clone_dyn for every declared size 8..=17 (every padding residue): same declared size, same bytes. This contract is what C06/C07/C12 assume in Verus.'
+PROPS['C16']['explanation'] = 'Clone clause: proof -- Verus verifies the verbatim clone_dyn generically for every structure kind and ALL sizes (same header, same padded size, same bytes up to the declared size) from the contract of new_boxed and the proved contracts of header() / payload() / payload_len; the per-kind set_size / dst_len / BASE_SIZE implementations are proved too. Construction clause: bounded contract check -- Kani verifies new_boxed on the compiled code for 0..=3 content slices of 0..=5 symbolic bytes each (header size field = 8 + total, header || content without gaps, size_of_val = total rounded up to 8, 8-aligned allocation, Kani`s allocator model checks that Box drop deallocates with the allocation`s layout) and clone_dyn for every declared size 8..=17 (every padding residue): same declared size, same bytes. This contract is what C06/C07/C12 assume in Verus.'
 PROPS['C17']['explanation'] = 'Extent ("never looks past the declared size") follows from the proved dst_len contracts of C05 (Verus, all sizes). String semantics are core-library loops outside Verus: Kani checks parse_slice_as_string for EVERY byte string of length 0..=6 (all 256 values per position) against an independent UTF-8 validator and first-NUL oracle, and the three string-tag constructors / parsers for bounded lengths (every padding residue, NUL in padding or next tag => MissingNul).'
 
 MANIFEST_TEXT = {
@@ -390,7 +392,7 @@ MANIFEST_TEXT = {
     ),
     'C16': dict(
         text=PROPS['C16']['explanation'],
-        note='Level: bounded contract check, not a proof: iterator adapters (.iter().map().sum()) and raw allocation are outside this Verus; "freed exactly once" is ownership (rustc), "same layout" is Kani`s dealloc check.',
+        note='Level: new_boxed itself is a bounded contract check, not a proof: iterator adapters (.iter().map().sum()) and raw allocation are outside this Verus (clone_dyn and the per-kind Header / MaybeDynSized implementations ARE proved, relative to the new_boxed contract; hypotheses of the clone proof: derived Clone on the header type, set_size with the header`s own size is the identity -- for the basic multiboot2 header only with a valid checksum); "freed exactly once" is ownership (rustc), "same layout" is Kani`s dealloc check.',
         technique='bounded contract check with Kani on the real functions; contract reused as an assumed dependency by the Verus builder units',
     ),
     'C17': dict(
